@@ -97,7 +97,9 @@ def pattern_forms():
             # a trailing '/*' two and one level(s) above the input: everything below is excluded, the input included
             "BOX/*", "ANCESTOR/*", "**/work/*",
             # a file's name without its extension is another name (bare, absolute, and equal to a directory's name)
-            "k", "e1", "ABSF:e2", "ABSF:x1/m", "y.cmake", "deep.cmake"]
+            "k", "e1", "ABSF:e2", "ABSF:x1/m", "y.cmake", "deep.cmake",
+            # patterns with a path that match every CMake file of a leaf directory (nothing of it is left to document)
+            "ABSF:x2/m.cmake", "**/x2/m.cmake"]
 
 
 BLANK_FILES = ["old api.cmake", "api.cmake", "k.cmake"]
